@@ -499,3 +499,86 @@ func checkExceptionsPath(c *core.Ctx, l *core.Ledger, rule string) {
 	}
 	l.Check(len(bad) == 0, rule, "buildFunction.exceptions", c.Rel(site.Pos()), "conditional only on the presence of a result specification and of exceptions", "the exceptions of a function are described only under "+strings.Join(bad, " & ")+": functions for which that does not hold (void functions with a throws clause) lose them in the plugin request")
 }
+
+// constAccept: for every kind of constant the root type kinds its Link accepts
+// on the pinned tree, confirmed by reading compile/constant_value.go together
+// with gen/constant.go (which renders each constant kind for exactly these
+// types). Widening the compiler's acceptance without the generator following
+// yields programs that compile and generate Go that does not build.
+var constAccept = map[string][]string{
+	"ConstantBool":      {"BoolSpec"},
+	"ConstantString":    {"StringSpec"},
+	"ConstantDouble":    {"DoubleSpec"},
+	"ConstantInt":       {"BoolSpec", "DoubleSpec", "EnumSpec", "I16Spec", "I32Spec", "I64Spec", "I8Spec"},
+	"ConstantList":      {"ListSpec", "SetSpec"},
+	"ConstantSet":       {"SetSpec"},
+	"ConstantMap":       {"MapSpec", "StructSpec"},
+	"ConstantStruct":    {"StructSpec"},
+	"EnumItemReference": {},
+}
+
+// checkConstAccept (CONST-ACCEPT): the type kinds each constant kind is
+// accepted for (positive type tests on the success paths of its Link) are the
+// frozen ones.
+func checkConstAccept(c *core.Ctx, l *core.Ledger, rule string) {
+	label := func(ifi *ssa.If, idx int) string {
+		cond := ifi.Cond
+		negated := idx == 1
+		for {
+			if u, ok := cond.(*ssa.UnOp); ok && u.Op == token.NOT {
+				cond, negated = u.X, !negated
+				continue
+			}
+			break
+		}
+		if x, ok := cond.(*ssa.Extract); ok {
+			if ta, isTA := x.Tuple.(*ssa.TypeAssert); isTA && x.Index == 1 {
+				s := "is(" + core.RecvTypeName(ta.AssertedType) + ")"
+				if negated {
+					return "!" + s
+				}
+				return s
+			}
+		}
+		return ""
+	}
+	for kind, want := range constAccept {
+		f := c.SSAFunc(c.LookupFunc("compile", kind+".Link"))
+		if f == nil {
+			l.Unk(rule, kind, "", "compile."+kind+".Link not found")
+			continue
+		}
+		seqs, ok := core.SuccessSeqs(f, core.SeqOpts{EdgeLabel: label, Inline: inlineHelpers(), Classify: func(in ssa.Instruction, inLoop bool) []string { return nil }})
+		if !ok {
+			l.Unk(rule, kind, c.Rel(f.Pos()), "too many paths")
+			continue
+		}
+		got := map[string]bool{}
+		for _, s := range seqs {
+			for _, e := range s {
+				if strings.HasPrefix(e, "is(") && strings.HasSuffix(e, "Spec)") {
+					got[strings.TrimSuffix(strings.TrimPrefix(e, "is("), ")")] = true
+				}
+			}
+		}
+		var gl []string
+		for k := range got {
+			gl = append(gl, k)
+		}
+		sortStringsInPlace(gl)
+		if len(want) == 0 {
+			l.Ok(rule, kind, c.Rel(f.Pos()), "no type-kind test on success paths (identity with the enum decides)")
+			continue
+		}
+		l.Check(strings.Join(gl, ",") == strings.Join(want, ","), rule, kind, c.Rel(f.Pos()), "accepted for "+strings.Join(want, ", ")+" only", "compile."+kind+".Link succeeds under type tests {"+strings.Join(gl, ", ")+"}, the generator renders this constant kind for {"+strings.Join(want, ", ")+"}: a program outside the latter compiles into Go that does not build")
+	}
+	l.Floor(rule, 8)
+}
+
+func sortStringsInPlace(s []string) {
+	for i := 1; i < len(s); i++ {
+		for j := i; j > 0 && s[j] < s[j-1]; j-- {
+			s[j], s[j-1] = s[j-1], s[j]
+		}
+	}
+}
